@@ -23,6 +23,7 @@ DECLINED = ["non-overlap, conservation and bucket hand-over arithmetic of the me
 ASSUMPTIONS = ["malloc/free/mmap/munmap behave as specified"]
 RULES_DOC = dict(common.SHARED_DOC)
 RULES_DOC["X4"] = common.X4_DOC
+RULES_DOC["R5"] = "page release: when the pool is destroyed, every undo of the stack guard (protect_memory(.., FALSE)) covers exactly the region that is then released (same address and size as the ABTU_free_largepage that follows); the size recorded with a user-supplied stack is the size the caller passed, unrounded"
 RULES_DOC.update({
     "R1": "provenance pairing: flag family = allocator family; free arm = inverse deallocator, exactly once; freed pointer term = allocated pointer term",
     "R2": "sync LIFO: CAS/store expects the pointer+tag loaded in the same iteration and installs tag+1",
@@ -728,6 +729,35 @@ def rule_R4(P, rep):
             rep.ob("R4", "[C02.A4] " + o["instance"], o["ok"], o["detail"], o["loc"], site="R4/" + o["instance"][:120])
 
 
+def rule_R5(P, rep):
+    D = P.fn("ABTI_mem_pool_destroy_global_pool", "src/mem/mem_pool.c")
+    frees = [i for _b, i in D.calls("ABTU_free_largepage")]
+    undo = [i for _b, i in D.calls("protect_memory") if D.nodes[D.strip(D.nodes[i]["a"][3])].get("cv") == 0]
+    rep.need(len(frees) >= 2, "destroy_global_pool releases pages at %d sites" % len(frees))
+    if P.fns("protect_memory"):
+        rep.need(len(undo) >= 2, "destroy_global_pool undoes the guard at %d sites" % len(undo))
+    for u in undo:
+        # the release this undo belongs to: the nearest release it dominates
+        mine = [f for f in frees if cfg.dominates(D, u, f) or cfg.can_reach(D, u, f, avoid_nodes=[x for x in frees if x != f])]
+        mine = [f for f in mine if not any(cfg.can_reach(D, u, g) and cfg.can_reach(D, g, f) and g != f for g in frees)]
+        ok = len(mine) == 1
+        why = "no unique release follows this undo"
+        if ok:
+            ua, fa = D.nodes[u]["a"], D.nodes[mine[0]]["a"]
+            got = (canon.expr(D, ua[0]), canon.expr(D, ua[1]))
+            want = (canon.expr(D, fa[0]), canon.expr(D, fa[1]))
+            ok = got == want
+            why = "guard undone on (%s, %s) but the region released is (%s, %s): pages of the allocator keep a read-only hole" % (got + want)
+        rep.ob("R5", "destroy_global_pool: the guard is undone on exactly the region that is released", ok, why, loc=D.loc(u),
+               site="destroy_global_pool/undo/%d" % undo.index(u))
+    # a user-supplied stack keeps the size the user gave
+    A = P.fn("thread_attr_set_stack", "src/thread_attr.c")
+    szp = param_of_type(A, "size_t")
+    vals = [canon.expr(A, rh) for _b, i, lh, rh in A.stores() if rh is not None and A.field_of(lh) == ("ABTI_thread_attr", "stacksize")]
+    rep.ob("R5", "thread_attr_set_stack records the caller's stack size unchanged", bool(vals) and all(v == szp for v in vals),
+           "stores %s (a user-supplied stack of that many bytes ends before the recorded top)" % vals, loc=A.file, site="attr_set_stack/size")
+
+
 def run(P, rep, tier):
     if tier == "thorough":
         common.rule_X4(P, rep)
@@ -736,3 +766,4 @@ def run(P, rep, tier):
     rule_R2(P, rep)
     rule_R3(P, rep)
     rule_R4(P, rep)
+    rule_R5(P, rep)
